@@ -45,6 +45,10 @@ func (a *Application) proxyHandler(w http.ResponseWriter, r *http.Request) {
 		return
 	}
 
+	if len(endpoints) == 0 && a.writeRoutingRejection(w, pr) {
+		return
+	}
+
 	a.logRequestStart(pr, len(endpoints))
 
 	// Strip the route prefix before forwarding to the backend.
@@ -304,6 +308,21 @@ func (a *Application) buildLogFields(pr *proxyRequest, duration time.Duration) [
 func (a *Application) handleEndpointError(w http.ResponseWriter, pr *proxyRequest, err error) {
 	pr.requestLogger.Error("Failed to get endpoints", "error", err)
 	http.Error(w, fmt.Sprintf("Service unavailable: %v", err), http.StatusBadGateway)
+}
+
+// writeRoutingRejection answers with the status the model routing strategy computed
+// (404 model not found, 503 model unavailable) when it rejected the request, instead of
+// letting the empty endpoint list surface as a generic gateway error
+func (a *Application) writeRoutingRejection(w http.ResponseWriter, pr *proxyRequest) bool {
+	if pr.profile == nil || pr.profile.RoutingDecision == nil {
+		return false
+	}
+	decision := pr.profile.RoutingDecision
+	if decision.Action != ports.RoutingActionRejected || decision.StatusCode < http.StatusBadRequest {
+		return false
+	}
+	http.Error(w, fmt.Sprintf("Model routing rejected request: %s", decision.Reason), decision.StatusCode)
+	return true
 }
 
 // only send error response if we haven't started streaming yet.
